@@ -432,6 +432,13 @@ def finish(res):
     EVID.mkdir(exist_ok=True)
     REPLAYS.mkdir(exist_ok=True)
     known = [e for e in load_known_findings(res.pid) if e.get("status") == "open"]
+    # safety net: a proof obligation that no longer builds is ALWAYS reported, whatever else the module found
+    # (known findings or other violations must not hide it)
+    bf = getattr(res, "build_failures", None)
+    if bf and not any(v["key"] in ("obligation", "driver") or "no longer checks" in v["what"] for v in res.violations):
+        res.violation("proof obligation no longer checks: " + " | ".join(
+            "theorem %s (%s:%s): %s" % (f.get("decl"), f.get("file"), f.get("line"), f.get("msg")) for f in bf)[:1500],
+            {"unchecked": bf}, found_input=False, key="obligation")
     code = 0
     reported_known = set()
     n_viol = 0
